@@ -624,9 +624,12 @@ static uint64_t ncases(void)
 static void run_case(uint64_t idx)
 {
     const uint64_t nb = is_clear_mode ? 0 : NBIG;
+    /* none of these containers ever needs memory: every second case runs with an allocator that refuses everything */
+    if (idx & 1) { vrt_fp_arm(NULL, 0, 1); VRT_COUNT("nomem.cases"); }
     if (idx < (uint64_t)nscopes) run_closure((int)idx);
     else if (idx < nscopes + nb) run_big(idx - nscopes);
     else run_random(idx - nscopes - nb);
+    vrt_fp_disarm();
 }
 static void winit(void)
 {
